@@ -6,6 +6,7 @@ import (
 	"os"
 	"path/filepath"
 	"sort"
+	"syscall"
 	"sync"
 	"sync/atomic"
 	"time"
@@ -131,6 +132,74 @@ func runC15(o *cli.Opts, run *evid.Run) {
 			exhaustiveFiles++
 		}
 	})
+	// the same prefixes delivered SLOWLY (an interrupted download still trickling in, slow storage): the bytes of the
+	// prefix arrive through a named pipe, then nothing for 12 s (thorough 35 s), then end-of-file. How long a load takes
+	// must not change its outcome. All cases run at once, so the stage costs one stall.
+	if run.Wants("C15/slow") && !hangSeen.Load() {
+		stall := time.Duration(o.Pick(12, 35)) * time.Second
+		r := gen.RNG(o.Seed, "C15/slow")
+		if ps, _, err := smallSystem(r); err == nil {
+			type slowCase struct {
+				raw  bool
+				off  int
+				data []byte
+			}
+			var cases []slowCase
+			for _, raw := range []bool{true, false} {
+				data, _, err := serialise(ps, raw)
+				if err != nil {
+					continue
+				}
+				b := sectionBoundaries(ps, raw)
+				offs := []int{4, 8, len(data) / 3, len(data) - 1, len(data)}
+				for _, x := range b {
+					offs = append(offs, int(x), int(x)+1+r.Intn(16))
+				}
+				for _, off := range offs {
+					if off >= 0 && off <= len(data) {
+						cases = append(cases, slowCase{raw, off, data})
+					}
+				}
+			}
+			cli.ForEach(len(cases), len(cases), func(ci int) {
+				c := cases[ci]
+				ck := fmt.Sprintf("C15/slow/%s/cut=%d", fmtName(c.raw), c.off)
+				path := filepath.Join(o.Scratch, fmt.Sprintf("slow-%d.fifo", ci))
+				if err := syscall.Mkfifo(path, 0o644); err != nil {
+					return
+				}
+				defer os.Remove(path)
+				wdone := make(chan struct{})
+				go func() {
+					defer close(wdone)
+					w, err := os.OpenFile(path, os.O_WRONLY, 0)
+					if err != nil {
+						return
+					}
+					w.Write(c.data[:c.off])
+					time.Sleep(stall)
+					w.Close()
+				}()
+				out, det := readOutcomeWithin(stall+2*time.Minute, func() error { _, e := prover.ReadSystemFromFile(path); return e })
+				if d, e := os.OpenFile(path, os.O_RDONLY|syscall.O_NONBLOCK, 0); e == nil {
+					<-wdone
+					d.Close()
+				} else {
+					<-wdone
+				}
+				want := "error"
+				if c.off == len(c.data) {
+					want = "loaded" // control: the complete file, delivered just as slowly, loads
+				}
+				sample := map[string]any{"format": fmtName(c.raw), "file_bytes": len(c.data), "cut_at": c.off, "stall_s": stall.Seconds(), "outcome": out}
+				if out != want {
+					run.Violate(ck, fmt.Sprintf("%s file of %d bytes, first %d bytes delivered and end-of-file %v later: outcome %s %s (expected %s)", fmtName(c.raw), len(c.data), c.off, stall, out, det, want), sample)
+				}
+				run.Case("slow-delivery/"+fmtName(c.raw), true, ck, out == "loaded", sample)
+			})
+		}
+	}
+	run.Stage("slow")
 	run.Set("files_with_every_offset_cut", exhaustiveFiles)
 	run.Set("exhaustive", false)
 	run.Stage("small")
